@@ -189,7 +189,7 @@ fn list_check(text: &[u8]) {
 
 /// short lines over a small alphabet: blank / 1-byte / whitespace-only lines, final newline or not
 pub fn h_list_small() {
-    let nl = sym::bound(3, 4);
+    let nl = sym::bound(3, 3);
     let mut text: Vec<u8> = Vec::new();
     let k = 1 + sym::choose("nlines", nl);
     let mut i = 0;
